@@ -52,6 +52,24 @@ def per (toks : List String) : String :=
       let rd := match Spec.Strict.tlv 0x04 w "OCTET STRING" with | .ok (v, []) => hexOrDash v | _ => "E"
       "w=" ++ hexOrDash w ++ " r=" ++ rd ++ "\t" ++ "w=* r=" ++ hexOrDash b
     | none => "bad-case"
+  | ["per_ber_oct", _form, hx] =>
+    -- BER: whatever the length form, the value is the content
+    match ofHex hx with
+    | some b => "r=" ++ hexOrDash b ++ "\t" ++ "r=" ++ hexOrDash b
+    | none => "bad-case"
+  | ["per_ber_int", _form, n] =>
+    match n.toNat? with
+    | some n => "r=" ++ toString n ++ "\t" ++ "r=" ++ toString n
+    | none => "bad-case"
+  | ["per_ber_cr", _form, hx] =>
+    match ofHex hx with
+    | some b => "r=" ++ hexOrDash b ++ "\t" ++ "r=" ++ hexOrDash b
+    | none => "bad-case"
+  | ["per_gcc_version"] =>
+    -- the version the model's client core data announces is the one the model's reader calls v5
+    let core := (Emit.clientCoreData 800 600 0x409 0 []).take 4
+    let m := "rt=00080001:v4,00080004:v5 core=" ++ toHex core
+    m ++ "\t" ++ "rt=00080001:v4,00080004:v5 core=04000800"
   | ["per_rt_int", n] =>
     match n.toNat? with
     | some n =>
